@@ -171,9 +171,10 @@ _U = _z3.RecFunction("union_has", _I, _SI, _SS, _S, _I, _z3.BoolSort())
 _V = _z3.RecFunction("union_val", _I, _SI, _AM, _S, _I, _I)
 _t, _n = _z3.Ints("u_tag u_n")
 _p, _bk, _bm, _k = _z3.Const("u_paths", _SI), _z3.Const("u_bk", _SS), _z3.Const("u_bm", _AM), _z3.Const("u_k", _S)
-_z3.RecAddDefinition(_U, [_t, _p, _bk, _k, _n], _z3.If(_n <= 0, _z3.Contains(_bk, _z3.Unit(_k)),
+from pyvc.sorts import rec_define
+rec_define(_U, [_t, _p, _bk, _k, _n], _z3.If(_n <= 0, _z3.Contains(_bk, _z3.Unit(_k)),
                      _z3.Or(_z3.Contains(_fk(_t, _p[_n - 1]), _z3.Unit(_k)), _U(_t, _p, _bk, _k, _n - 1))))
-_z3.RecAddDefinition(_V, [_t, _p, _bm, _k, _n], _z3.If(_n <= 0, _z3.Select(_bm, _k),
+rec_define(_V, [_t, _p, _bm, _k, _n], _z3.If(_n <= 0, _z3.Select(_bm, _k),
                      _z3.If(_z3.Contains(_fk(_t, _p[_n - 1]), _z3.Unit(_k)), _z3.Select(_fm(_t, _p[_n - 1]), _k), _V(_t, _p, _bm, _k, _n - 1))))
 _glob = _z3.Function("glob_result", _I, _S, _SI)
 _psrc = _z3.Function("parser_source", _I, _I)
